@@ -1,9 +1,163 @@
-import Lean.Data.Json
-/-! Driver handlers for property C14: `handle op request` answers one JSON request. -/
-namespace Pydjinni.Drv.C14
-open Lean
+import PydjinniModel.Drv.SysJson
+/-!
+Driver handlers for property C14.
 
-def handle (op : String) (_req : Json) : Except String Json :=
-  throw s!"unknown op {op}"
+* `c14.run`  — the model's prediction for one run: write log, report, file system afterwards
+* `c14.spec` — the specification evaluated on what the implementation did
+-/
+namespace Pydjinni.Drv.C14
+open Lean Pydjinni.Gen Pydjinni.Sys Pydjinni.Drv.SysJson
+
+structure Req where
+  run : RunCfg
+  reportPath : Option Path
+  reads : List Path
+  exts : List Path
+  before : FSys
+
+def decodeReq (req : Json) : Except String Req := do
+  let cwd ← req.getObjValAs? String "cwd"
+  let gens ← req.getObjVal? "gens" >>= decodeGens
+  let ts ← getStrs req "targets"
+  let targets ← ts.mapM decodeT
+  let clean ← req.getObjValAs? Bool "clean"
+  let supportLib ← req.getObjValAs? Bool "supportLib"
+  let support ← req.getObjVal? "support" >>= decodeSupport
+  let defs ← decodeDecls req "defs"
+  let report ← optStr req "report"
+  let reads ← getStrs req "reads"
+  let exts ← getStrs req "exts"
+  let before ← getStrs req "before"
+  pure { run := { cwd := absParts cwd, gens, targets, clean, support := if supportLib then support else fun _ => [], defs },
+         reportPath := report.map Path.ofString, reads := reads.map Path.ofString, exts := exts.map Path.ofString,
+         before := before.map absParts }
+
+def absJ (p : List String) : Json := Json.str ("/" ++ "/".intercalate p)
+
+def genFilesJ (g : GenFiles) : Json :=
+  Json.mkObj [("include_dir", pathJ g.includeDir), ("source_dir", pathJ g.sourceDir), ("header", pathsJ g.header), ("source", pathsJ g.source)]
+
+/-- the `parse` part of the run: directories of every configured generator, inputs read -/
+def parseOps (r : RunCfg) (reads exts : List Path) : List (FOp Unit) :=
+  let cfg : Cfg := { gens := r.gens }
+  cfg.generators.flatMap (fun g => match r.gens g with
+    | some gc => (if g.writesHeader then [FOp.setInclude g.key gc.out.header] else []) ++ [FOp.setSource g.key gc.out.source]
+    | none => [])
+  ++ reads.map FOp.readIdl ++ exts.map FOp.readExt
+
+def run (q : Req) : Json :=
+  let s0 : FRW Unit := { keys := G.all.map G.key }
+  let s1 := s0.run (parseOps q.run q.reads q.exts)
+  let (s2, fs) := runTargets q.run (s1, q.before)
+  let rep := s2.report
+  let (s3, fs3) := match q.reportPath with
+    | some p => (s2.step (.writeReport p ()), addFiles fs [resolve q.run.cwd p])
+    | none => (s2, fs)
+  let relClean := q.run.generators.all (fun g => match q.run.gens g with
+    | some c => (genRel g c c (q.run.support g) q.run.defs).all (fun f => f.2.clean)
+    | none => true)
+  Json.mkObj [
+    ("log", pathsJ (s3.log.map (·.1))),
+    ("report", Json.mkObj [("idl", pathsJ rep.idl), ("ext", pathsJ rep.ext),
+      ("generated", Json.mkObj (rep.generated.map (fun (k, g) => (k, genFilesJ g))))]),
+    ("after", Json.arr (fs3.map absJ).toArray),
+    ("relNamesClean", relClean)]
+
+/-! ### specification on the implementation's observation -/
+
+structure ImplGen where
+  key : String
+  includeDir : Option String
+  sourceDir : Option String
+  header : List String
+  source : List String
+
+def decodeImplGen (k : String) (j : Json) : Except String ImplGen := do
+  let inc ← optStr j "include_dir"
+  let src ← optStr j "source_dir"
+  let h := (getStrs j "header").toOption.getD []
+  let s := (getStrs j "source").toOption.getD []
+  pure { key := k, includeDir := inc, sourceDir := src, header := h, source := s }
+
+def count (l : List (List String)) (x : List String) : Nat := (l.filter (· == x)).length
+def sameMultiset (a b : List (List String)) : Bool := a.length == b.length && a.all (fun x => count a x == count b x)
+def dedupL (l : List (List String)) : List (List String) := l.foldl (fun acc x => if acc.contains x then acc else acc ++ [x]) []
+
+/-- a written path repeats the (relative) output directory after the output directory -/
+def doubled (cwd : List String) (dir : Path) (written : Path) : Bool :=
+  !dir.abs && !dir.parts.isEmpty &&
+    (resolve cwd (dir.join dir)).isPrefixOf (resolve cwd written)
+
+def spec (req : Json) : Except String Json := do
+  let q ← decodeReq req
+  let impl ← req.getObjVal? "impl"
+  let logS ← getStrs impl "log"
+  let created ← getStrs impl "created"      -- absolute paths that exist afterwards and did not before, or changed
+  let deleted ← getStrs impl "deleted"
+  let rep ← impl.getObjVal? "report"
+  let repIdl ← getStrs rep "idl"
+  let repExt ← getStrs rep "ext"
+  let genJ ← rep.getObjVal? "generated"
+  let genObj ← genJ.getObj?
+  let gens ← genObj.toList.mapM (fun (k, v) => decodeImplGen k v)
+  let expIdl ← getStrs req "expectIdl"
+  let expExt ← getStrs req "expectExt"
+  let cwd := q.run.cwd
+  let res (s : String) := resolve cwd (Path.ofString s)
+  let active := q.run.generators.filterMap (fun g => (q.run.gens g).map (fun c => (g, c)))
+  let dirs : List Path := active.flatMap (fun (_, c) => [c.out.header, c.out.source])
+  let rdirs := dirs.map (resolve cwd)
+  let reportAbs := q.reportPath.map (resolve cwd)
+  let isReport (p : List String) := reportAbs == some p
+  let underSome (p : List String) := rdirs.any (fun d => under d p)
+  let log := logS.map res
+  let mut fails : List (String × String) := []
+  -- 1. every write lands below a configured output directory (or is the report)
+  for p in logS do
+    if !(underSome (res p) || isReport (res p)) then
+      fails := fails ++ [("write-outside-out", p)]
+  -- 2. <out>/<relative name>, not <out>/<out>/<relative name>
+  for p in logS do
+    if dirs.any (fun d => doubled cwd d (Path.ofString p)) then
+      fails := fails ++ [("double-prefix", p)]
+  -- 3. nothing else is created or changed; deletions only by `clean`, only below the cleaned directories
+  for p in created do
+    if !(log.contains (absParts p)) then fails := fails ++ [("touched-outside", p)]
+  for p in deleted do
+    if !(q.run.clean && underSome (absParts p)) then fails := fails ++ [("deleted-outside", p)]
+  -- 4. the report lists exactly the writes, per generator, with its directories
+  let listed := gens.flatMap (fun g => g.header ++ g.source)
+  let logNoReport := (logS.filter (fun p => !isReport (res p)))
+  if !(sameMultiset (listed.map res) (logNoReport.map res)) then
+    fails := fails ++ [("report-not-log", s!"listed {listed.length} logged {logNoReport.length}")]
+  for g in gens do
+    match active.find? (fun (a, _) => a.key == g.key) with
+    | none => fails := fails ++ [("report-unknown-generator", g.key)]
+    | some (a, c) =>
+      if a.writesHeader && g.includeDir.map Path.ofString != some c.out.header then fails := fails ++ [("report-dir", g.key ++ " include_dir")]
+      if g.sourceDir.map Path.ofString != some c.out.source then fails := fails ++ [("report-dir", g.key ++ " source_dir")]
+      for p in g.header do
+        if !(under (resolve cwd c.out.header) (res p)) then fails := fails ++ [("report-wrong-generator", p)]
+      for p in g.source do
+        if !(under (resolve cwd c.out.source) (res p)) then fails := fails ++ [("report-wrong-generator", p)]
+  for (a, _) in active do
+    if !(gens.any (fun g => g.key == a.key)) then fails := fails ++ [("report-generator-missing", a.key)]
+  -- 5. inputs: the root, every transitively imported file, every @extern file — each once
+  let gotIdl := repIdl.map res
+  let wantIdl := expIdl.map absParts
+  if !(sameMultiset gotIdl wantIdl) then
+    fails := fails ++ [(if (dedupL gotIdl).length != gotIdl.length then "report-idl-duplicate" else "report-idl", s!"{repIdl}")]
+  let gotExt := repExt.map res
+  let wantExt := expExt.map absParts
+  if !(sameMultiset gotExt wantExt) then
+    fails := fails ++ [(if gotExt.length < wantExt.length then "report-extern-missing" else "report-extern", s!"{repExt}")]
+  pure (Json.mkObj [("holds", fails.isEmpty),
+    ("fails", Json.arr (fails.map (fun (k, d) => Json.mkObj [("key", k), ("detail", d)])).toArray)])
+
+def handle (op : String) (req : Json) : Except String Json :=
+  match op with
+  | "c14.run" => do let q ← decodeReq req; pure (run q)
+  | "c14.spec" => spec req
+  | _ => throw s!"unknown op {op}"
 
 end Pydjinni.Drv.C14
